@@ -32,9 +32,15 @@ KindSets(st) ==
 
 SimStep ==
   LET K == KindSets(s) IN
-  \E i \in 1 .. Len(K) : K[i] # {} /\ StepWith(RandomElement(K[i]))
+  \E i \in 1 .. Len(K) : K[i] # {} /\ LET r == RandomElement(K[i]) IN ~Blocked(s, r) /\ StepWith(CHOOSE a \in Alts(r) : TRUE)
 
-SimGated == Card(DOMAIN s.io) < MaxIO /\ ReqIO(s) # {} /\ GatedWith(RandomElement(ReqIO(s)))
+\* I/O, or a reclaim-type OPEN, that is held in flight (one OPEN at a time;
+\* one random request per kind, as above).
+OpenGateSet(st) == IF \E i \in DOMAIN st.io : st.io[i].kind = "open" THEN {} ELSE ReqOpenGate(st)
+SimGated ==
+  /\ Card(DOMAIN s.io) < MaxIO
+  /\ LET K == <<ReqIO(s), ReqIO(s), OpenGateSet(s), OpenGateSet(s), OpenGateSet(s)>> IN
+     \E i \in 1 .. Len(K) : K[i] # {} /\ LET r == RandomElement(K[i]) IN ~Blocked(s, r) /\ GatedWith(r)
 
 SimInit == Init /\ hist = << >>
 SimTick ==
